@@ -891,10 +891,37 @@ class Num:
         return True
 
     def havoc_type(self, st, ctype):
+        """a store of C type ctype through a pointer of unknown provenance: every tracked field of that type may have
+        changed - except the fields of a named local record whose address has not been handed to any call so far on
+        this path (nothing else can hold a pointer to it)"""
+        esc = st.notes.get("escaped", ())
         for k2 in list(st.env):
             m = st.meta.get(k2)
             if m and m[1] is not None and (ctype is None or m[2] == ctype):
+                if k2.startswith("v:") and k2[2:].split(".")[0] not in esc:
+                    continue
                 del st.env[k2]
+
+    def note_escapes(self, e, st):
+        """locals whose address is an argument of this call (or stored by it) may from now on be reached by other code"""
+        fn = self.fn
+        new = None
+        for a in e.get("a", []):
+            for x in fn.walk(a, follow_refs=True):
+                if x["k"] == "un" and x["op"] == "addr":
+                    t_ = fn.d(x["a"][0])
+                    while t_ is not None and t_["k"] in ("member", "index") and not t_.get("arrow"):
+                        t_ = fn.d(t_["a"][0])
+                    if t_ is not None and t_["k"] == "var" and t_.get("sc") in ("local", "param"):
+                        new = (new or set()) | {t_["n"]}
+                elif x["k"] == "decay":
+                    t_ = fn.d(x["a"][0])
+                    while t_ is not None and t_["k"] == "member" and not t_.get("arrow"):
+                        t_ = fn.d(t_["a"][0])
+                    if t_ is not None and t_["k"] == "var" and t_.get("sc") in ("local", "param"):
+                        new = (new or set()) | {t_["n"]}
+        if new:
+            st.notes["escaped"] = set(st.notes.get("escaped", ())) | new
 
     def havoc_rec(self, st, rec):
         recs = {rec}
@@ -1018,7 +1045,16 @@ class Num:
                     return v
                 if entails(st, v - hi) and entails(st, Poly.const(lo) - v):
                     return v
-                return Poly.atom(self.fresh(st, "cast", t))
+                # the same value converted to the same type is the same machine value
+                cm = st.notes.get("castmemo", {})
+                ck = (repr(v), t.get("w"), t.get("u"))
+                if ck in cm:
+                    return Poly.atom(cm[ck])
+                a_ = self.fresh(st, "cast", t)
+                cm = dict(cm)
+                cm[ck] = a_
+                st.notes["castmemo"] = cm
+                return Poly.atom(a_)
             if t.get("ptr"):
                 return v
             if "w" in t:
@@ -1827,6 +1863,14 @@ class Num:
         reachable from them through pointer fields, and all globals"""
         fn = self.fn
         callee = self.prog.fns.get(e.get("callee")) if (self.prog and e.get("callee")) else None
+        # (the escape is recorded after this call's own effect: a callee that gets &x can write x only through the
+        # argument, which the effect items / the argument loop below handle)
+        try:
+            return self._havoc_call(e, st, fn, callee)
+        finally:
+            self.note_escapes(e, st)
+
+    def _havoc_call(self, e, st, fn, callee):
         if self.prog is not None and getattr(self, "use_effects", True):
             E = self.prog.__dict__.get("_effects")
             if E is None:
